@@ -201,7 +201,7 @@ pub trait Sut {
     fn into_iter(self: Box<Self>) -> Option<Box<dyn It>>;
     /// Build another container form from a copy of the current contents and run
     /// one action on it. `None` if this adapter does not support the form.
-    fn snap(&self, form: Form, action: &SnapAction) -> Option<SnapResult>;
+    fn snap(&self, form: Form, actions: &[SnapAction]) -> Option<SnapResult>;
 }
 
 pub struct TypeDesc {
@@ -459,7 +459,7 @@ macro_rules! soa {
                 fn into_iter(self: Box<Self>) -> Option<Box<dyn It>> {
                     Some(Box::new(ReadIt(self.0.into_iter(), to_item)))
                 }
-                fn snap(&self, form: Form, action: &SnapAction) -> Option<SnapResult> {
+                fn snap(&self, form: Form, actions: &[SnapAction]) -> Option<SnapResult> {
                     let cols = columns(&self.0);
                     match form {
                         Form::Boxed => {
@@ -468,7 +468,9 @@ macro_rules! soa {
                                 $($f: wr(it.next().unwrap().into_boxed_slice()),)+
                                 $($ph: PhantomData,)?
                             };
-                            let trace = match action {
+                            let mut trace: Vec<Obs> = Vec::new();
+ for action in actions {
+ let t: Vec<Obs> = match action {
                                 SnapAction::Iter(s, e) => run_sched(Box::new(ReadIt((&b).into_iter(), |c: C<&f32>| to_item_ref(&c))), s, *e),
                                 SnapAction::IterMethod(s, e) => run_sched(Box::new(ReadIt(b.iter(), |c: C<&f32>| to_item_ref(&c))), s, *e),
                                 SnapAction::IterMut(s, e) => run_sched(Box::new(WriteIt(
@@ -496,6 +498,12 @@ macro_rules! soa {
                                     )), s, *e),
                                 }),
                             };
+ trace.extend(t);
+ trace.push(Obs::Sep);
+ }
+ // epilogue: what the form itself shows after the actions (not the storage underneath)
+                            trace.push(Obs::Items((&b).into_iter().map(|c: C<&f32>| to_item_ref(&c)).collect()));
+                            trace.push(Obs::Len(b.iter().len()));
                             let after = rows(&[$(uw::<Box<[f32]>, _>(b.$f).into_vec()),+]);
                             Some(SnapResult { trace, after: Some(after) })
                         }
@@ -505,10 +513,12 @@ macro_rules! soa {
                                 $($f: wr(&it.next().unwrap()[..]),)+
                                 $($ph: PhantomData,)?
                             };
-                            let trace = match action {
+                            let mut trace: Vec<Obs> = Vec::new();
+ for action in actions {
+ let t: Vec<Obs> = match action {
                                 SnapAction::Iter(s, e) => run_sched(Box::new(ReadIt((&b).into_iter(), |c: C<&f32>| to_item_ref(&c))), s, *e),
                                 SnapAction::IterMethod(s, e) => run_sched(Box::new(ReadIt(b.iter(), |c: C<&f32>| to_item_ref(&c))), s, *e),
-                                SnapAction::IntoIter(s, e) => run_sched(Box::new(ReadIt(b.into_iter(), |c: C<&f32>| to_item_ref(&c))), s, *e),
+                                SnapAction::IntoIter(s, e) => run_sched(Box::new(ReadIt(b.clone().into_iter(), |c: C<&f32>| to_item_ref(&c))), s, *e),
                                 SnapAction::Get(i) => vec![Obs::Item(b.get::<usize, f32>(*i).map(|c| to_item_ref(&c)))],
                                 SnapAction::GetRange(r, s, e) => with_range!(r, |r| match b.get::<_, f32>(r) {
                                     None => vec![Obs::NoRange],
@@ -516,6 +526,12 @@ macro_rules! soa {
                                 }),
                                 _ => return None,
                             };
+ trace.extend(t);
+ trace.push(Obs::Sep);
+ }
+ // epilogue: what the form itself shows after the actions (not the storage underneath)
+                            trace.push(Obs::Items((&b).into_iter().map(|c: C<&f32>| to_item_ref(&c)).collect()));
+                            trace.push(Obs::Len(b.iter().len()));
                             Some(SnapResult { trace, after: None })
                         }
                         Form::MutSlice => {
@@ -526,7 +542,9 @@ macro_rules! soa {
                                     $($f: wr(&mut it.next().unwrap()[..]),)+
                                     $($ph: PhantomData,)?
                                 };
-                                match action {
+                                let mut trace: Vec<Obs> = Vec::new();
+ for action in actions {
+ let t: Vec<Obs> = match action {
                                     SnapAction::Iter(s, e) => run_sched(Box::new(ReadIt((&b).into_iter(), |c: C<&f32>| to_item_ref(&c))), s, *e),
                                     SnapAction::IterMethod(s, e) => run_sched(Box::new(ReadIt(b.iter(), |c: C<&f32>| to_item_ref(&c))), s, *e),
                                     SnapAction::IterMut(s, e) => run_sched(Box::new(WriteIt(
@@ -534,11 +552,16 @@ macro_rules! soa {
                                         |c: &C<&mut f32>| to_item(c.copied()),
                                         |c: &mut C<&mut f32>, n: Item| c.set(from_item(n)),
                                     )), s, *e),
-                                    SnapAction::IntoIter(s, e) => run_sched(Box::new(WriteIt(
-                                        b.into_iter(),
-                                        |c: &C<&mut f32>| to_item(c.copied()),
-                                        |c: &mut C<&mut f32>, n: Item| c.set(from_item(n)),
-                                    )), s, *e),
+                                    SnapAction::IntoIter(s, e) => {
+                                        // by value: consumes the form, nothing can follow
+                                        let t = run_sched(Box::new(WriteIt(
+                                            b.into_iter(),
+                                            |c: &C<&mut f32>| to_item(c.copied()),
+                                            |c: &mut C<&mut f32>, n: Item| c.set(from_item(n)),
+                                        )), s, *e);
+                                        trace.extend(t);
+                                        return Some(SnapResult { trace, after: Some(rows(&cols)) });
+                                    }
                                     SnapAction::Get(i) => vec![Obs::Item(b.get::<usize, f32>(*i).map(|c| to_item_ref(&c)))],
                                     SnapAction::GetRange(r, s, e) => with_range!(r, |r| match b.get::<_, f32>(r) {
                                         None => vec![Obs::NoRange],
@@ -557,29 +580,38 @@ macro_rules! soa {
                                             |c: &mut C<&mut f32>, n: Item| c.set(from_item(n)),
                                         )), s, *e),
                                     }),
-                                }
+                                };
+ trace.extend(t);
+ trace.push(Obs::Sep);
+ }
+ // epilogue: what the form itself shows after the actions (not the storage underneath)
+                            trace.push(Obs::Items((&b).into_iter().map(|c: C<&f32>| to_item_ref(&c)).collect()));
+                            trace.push(Obs::Len(b.iter().len()));
+ trace
                             };
                             Some(SnapResult { trace, after: Some(rows(&cols)) })
                         }
                         Form::Array(n) => match n {
-                            0 => snap_array::<0>(&cols, action),
-                            1 => snap_array::<1>(&cols, action),
-                            2 => snap_array::<2>(&cols, action),
-                            5 => snap_array::<5>(&cols, action),
+                            0 => snap_array::<0>(&cols, actions),
+                            1 => snap_array::<1>(&cols, actions),
+                            2 => snap_array::<2>(&cols, actions),
+                            5 => snap_array::<5>(&cols, actions),
                             _ => None,
                         },
                     }
                 }
             }
 
-            fn snap_array<const N: usize>(cols: &[Vec<f32>], action: &SnapAction) -> Option<SnapResult> {
+            fn snap_array<const N: usize>(cols: &[Vec<f32>], actions: &[SnapAction]) -> Option<SnapResult> {
                                     let mut it = cols.iter();
                                     let mut b: C<[f32; N]> = C::<[f32; N]> {
                                         $($f: wr(<[f32; N]>::try_from(&it.next().unwrap()[..N]).unwrap()),)+
                                         $($ph: PhantomData,)?
                                     };
-                                    let mut consumed = false;
-                                    let trace = match action {
+                                    let consumed = false;
+                                    let mut trace: Vec<Obs> = Vec::new();
+ for action in actions {
+ let t: Vec<Obs> = match action {
                                         SnapAction::Iter(s, e) => run_sched(Box::new(ReadIt((&b).into_iter(), |c: C<&f32>| to_item_ref(&c))), s, *e),
                                         SnapAction::IterMethod(s, e) => run_sched(Box::new(ReadIt(b.iter(), |c: C<&f32>| to_item_ref(&c))), s, *e),
                                         SnapAction::IterMut(s, e) => run_sched(Box::new(WriteIt(
@@ -587,7 +619,11 @@ macro_rules! soa {
                                             |c: &C<&mut f32>| to_item(c.copied()),
                                             |c: &mut C<&mut f32>, n: Item| c.set(from_item(n)),
                                         )), s, *e),
-                                        SnapAction::IntoIter(s, e) => { consumed = true; run_sched(Box::new(ReadIt(b.into_iter(), to_item)), s, *e) }
+                                        SnapAction::IntoIter(s, e) => {
+                                            let t = run_sched(Box::new(ReadIt(b.into_iter(), to_item)), s, *e);
+                                            trace.extend(t);
+                                            return Some(SnapResult { trace, after: None });
+                                        }
                                         SnapAction::Get(i) => vec![Obs::Item(b.get::<usize, f32>(*i).map(|c| to_item_ref(&c)))],
                                         SnapAction::GetRange(r, s, e) => with_range!(r, |r| match b.get::<_, f32>(r) {
                                             None => vec![Obs::NoRange],
@@ -607,6 +643,12 @@ macro_rules! soa {
                                             )), s, *e),
                                         }),
                                     };
+ trace.extend(t);
+ trace.push(Obs::Sep);
+ }
+ // epilogue: what the form itself shows after the actions (not the storage underneath)
+                            trace.push(Obs::Items((&b).into_iter().map(|c: C<&f32>| to_item_ref(&c)).collect()));
+                            trace.push(Obs::Len(b.iter().len()));
                                     let after = if consumed { None } else {
                                         Some(rows(&[$(uw::<[f32; N], _>(b.$f).to_vec()),+]))
                                     };
@@ -666,7 +708,7 @@ macro_rules! soa {
                 fn into_iter(self: Box<Self>) -> Option<Box<dyn It>> {
                     Some(Box::new(ReadIt(self.0.into_iter(), to_item_a)))
                 }
-                fn snap(&self, form: Form, action: &SnapAction) -> Option<SnapResult> {
+                fn snap(&self, form: Form, actions: &[SnapAction]) -> Option<SnapResult> {
                     let mut cols = columns(&self.0.color);
                     let mut acol = self.0.alpha.clone();
                     match form {
@@ -679,7 +721,9 @@ macro_rules! soa {
                                 },
                                 alpha: acol.into_boxed_slice(),
                             };
-                            let trace = match action {
+                            let mut trace: Vec<Obs> = Vec::new();
+ for action in actions {
+ let t: Vec<Obs> = match action {
                                 SnapAction::Iter(s, e) => run_sched(Box::new(ReadIt((&b).into_iter(), rf_a)), s, *e),
                                 SnapAction::IterMethod(s, e) => run_sched(Box::new(ReadIt(b.iter(), rf_a)), s, *e),
                                 SnapAction::IterMut(s, e) => run_sched(Box::new(WriteIt((&mut b).into_iter(), rd_a, wr_a)), s, *e),
@@ -699,6 +743,12 @@ macro_rules! soa {
                                     Some(sl) => run_sched(Box::new(WriteIt(sl.into_iter(), rd_a, wr_a)), s, *e),
                                 }),
                             };
+ trace.extend(t);
+ trace.push(Obs::Sep);
+ }
+ // epilogue: what the form itself shows after the actions (not the storage underneath)
+                            trace.push(Obs::Items((&b).into_iter().map(rf_a).collect()));
+                            trace.push(Obs::Len(b.iter().len()));
                             let mut all = vec![$(uw::<Box<[f32]>, _>(b.color.$f).into_vec()),+];
                             all.push(b.alpha.into_vec());
                             Some(SnapResult { trace, after: Some(rows(&all)) })
@@ -712,10 +762,12 @@ macro_rules! soa {
                                 },
                                 alpha: &acol[..],
                             };
-                            let trace = match action {
+                            let mut trace: Vec<Obs> = Vec::new();
+ for action in actions {
+ let t: Vec<Obs> = match action {
                                 SnapAction::Iter(s, e) => run_sched(Box::new(ReadIt((&b).into_iter(), rf_a)), s, *e),
                                 SnapAction::IterMethod(s, e) => run_sched(Box::new(ReadIt(b.iter(), rf_a)), s, *e),
-                                SnapAction::IntoIter(s, e) => run_sched(Box::new(ReadIt(b.into_iter(), rf_a)), s, *e),
+                                SnapAction::IntoIter(s, e) => run_sched(Box::new(ReadIt(b.clone().into_iter(), rf_a)), s, *e),
                                 SnapAction::Get(i) => vec![Obs::Item(b.get::<usize, f32, f32>(*i).map(rf_a))],
                                 SnapAction::GetRange(r, s, e) => with_range!(r, |r| match b.get::<_, f32, f32>(r) {
                                     None => vec![Obs::NoRange],
@@ -723,6 +775,12 @@ macro_rules! soa {
                                 }),
                                 _ => return None,
                             };
+ trace.extend(t);
+ trace.push(Obs::Sep);
+ }
+ // epilogue: what the form itself shows after the actions (not the storage underneath)
+                            trace.push(Obs::Items((&b).into_iter().map(rf_a).collect()));
+                            trace.push(Obs::Len(b.iter().len()));
                             Some(SnapResult { trace, after: None })
                         }
                         Form::MutSlice => {
@@ -735,11 +793,18 @@ macro_rules! soa {
                                     },
                                     alpha: &mut acol[..],
                                 };
-                                match action {
+                                let mut trace: Vec<Obs> = Vec::new();
+ for action in actions {
+ let t: Vec<Obs> = match action {
                                     SnapAction::Iter(s, e) => run_sched(Box::new(ReadIt((&b).into_iter(), rf_a)), s, *e),
                                     SnapAction::IterMethod(s, e) => run_sched(Box::new(ReadIt(b.iter(), rf_a)), s, *e),
                                     SnapAction::IterMut(s, e) => run_sched(Box::new(WriteIt((&mut b).into_iter(), rd_a, wr_a)), s, *e),
-                                    SnapAction::IntoIter(s, e) => run_sched(Box::new(WriteIt(b.into_iter(), rd_a, wr_a)), s, *e),
+                                    SnapAction::IntoIter(s, e) => {
+                                        let t = run_sched(Box::new(WriteIt(b.into_iter(), rd_a, wr_a)), s, *e);
+                                        trace.extend(t);
+                                        cols.push(acol);
+                                        return Some(SnapResult { trace, after: Some(rows(&cols)) });
+                                    }
                                     SnapAction::Get(i) => vec![Obs::Item(b.get::<usize, f32, f32>(*i).map(rf_a))],
                                     SnapAction::GetRange(r, s, e) => with_range!(r, |r| match b.get::<_, f32, f32>(r) {
                                         None => vec![Obs::NoRange],
@@ -754,23 +819,30 @@ macro_rules! soa {
                                         None => vec![Obs::NoRange],
                                         Some(sl) => run_sched(Box::new(WriteIt(sl.into_iter(), rd_a, wr_a)), s, *e),
                                     }),
-                                }
+                                };
+ trace.extend(t);
+ trace.push(Obs::Sep);
+ }
+ // epilogue: what the form itself shows after the actions (not the storage underneath)
+                            trace.push(Obs::Items((&b).into_iter().map(rf_a).collect()));
+                            trace.push(Obs::Len(b.iter().len()));
+ trace
                             };
                             cols.push(acol);
                             Some(SnapResult { trace, after: Some(rows(&cols)) })
                         }
                         Form::Array(n) => match n {
-                            0 => snap_array_a::<0>(&cols, &acol, action),
-                            1 => snap_array_a::<1>(&cols, &acol, action),
-                            2 => snap_array_a::<2>(&cols, &acol, action),
-                            5 => snap_array_a::<5>(&cols, &acol, action),
+                            0 => snap_array_a::<0>(&cols, &acol, actions),
+                            1 => snap_array_a::<1>(&cols, &acol, actions),
+                            2 => snap_array_a::<2>(&cols, &acol, actions),
+                            5 => snap_array_a::<5>(&cols, &acol, actions),
                             _ => None,
                         },
                     }
                 }
             }
 
-            fn snap_array_a<const N: usize>(cols: &[Vec<f32>], acol: &[f32], action: &SnapAction) -> Option<SnapResult> {
+            fn snap_array_a<const N: usize>(cols: &[Vec<f32>], acol: &[f32], actions: &[SnapAction]) -> Option<SnapResult> {
                                     let mut it = cols.iter();
                                     let mut b: Alpha<C<[f32; N]>, [f32; N]> = Alpha {
                                         color: C::<[f32; N]> {
@@ -779,12 +851,18 @@ macro_rules! soa {
                                         },
                                         alpha: <[f32; N]>::try_from(&acol[..N]).unwrap(),
                                     };
-                                    let mut consumed = false;
-                                    let trace = match action {
+                                    let consumed = false;
+                                    let mut trace: Vec<Obs> = Vec::new();
+ for action in actions {
+ let t: Vec<Obs> = match action {
                                         SnapAction::Iter(s, e) => run_sched(Box::new(ReadIt((&b).into_iter(), rf_a)), s, *e),
                                         SnapAction::IterMethod(s, e) => run_sched(Box::new(ReadIt(b.iter(), rf_a)), s, *e),
                                         SnapAction::IterMut(s, e) => run_sched(Box::new(WriteIt((&mut b).into_iter(), rd_a, wr_a)), s, *e),
-                                        SnapAction::IntoIter(s, e) => { consumed = true; run_sched(Box::new(ReadIt(b.into_iter(), to_item_a)), s, *e) }
+                                        SnapAction::IntoIter(s, e) => {
+                                            let t = run_sched(Box::new(ReadIt(b.into_iter(), to_item_a)), s, *e);
+                                            trace.extend(t);
+                                            return Some(SnapResult { trace, after: None });
+                                        }
                                         SnapAction::Get(i) => vec![Obs::Item(b.get::<usize, f32, f32>(*i).map(rf_a))],
                                         SnapAction::GetRange(r, s, e) => with_range!(r, |r| match b.get::<_, f32, f32>(r) {
                                             None => vec![Obs::NoRange],
@@ -800,6 +878,12 @@ macro_rules! soa {
                                             Some(sl) => run_sched(Box::new(WriteIt(sl.into_iter(), rd_a, wr_a)), s, *e),
                                         }),
                                     };
+ trace.extend(t);
+ trace.push(Obs::Sep);
+ }
+ // epilogue: what the form itself shows after the actions (not the storage underneath)
+                            trace.push(Obs::Items((&b).into_iter().map(rf_a).collect()));
+                            trace.push(Obs::Len(b.iter().len()));
                                     let after = if consumed { None } else {
                                         let mut all = vec![$(uw::<[f32; N], _>(b.color.$f).to_vec()),+];
                                         all.push(b.alpha.to_vec());
@@ -855,7 +939,7 @@ macro_rules! soa {
                     with_range!(r, |r| Box::new(ReadIt(self.0.drain(r), to_item_m)) as Box<dyn It + 'a>)
                 }
                 fn into_iter(self: Box<Self>) -> Option<Box<dyn It>> { None }
-                fn snap(&self, _form: Form, _action: &SnapAction) -> Option<SnapResult> { None }
+                fn snap(&self, _form: Form, _actions: &[SnapAction]) -> Option<SnapResult> { None }
             }
 
             fn eq_plain(a: Item, b: Item) -> bool { from_item(a) == from_item(b) }
